@@ -415,6 +415,8 @@ func serveTrace(variant string, opts []middleware.TraceOption, hT, hP string, ba
 	return got
 }
 
+var staleCalls int
+
 type captureDoer struct{ req *http.Request }
 
 func (d *captureDoer) Do(r *http.Request) (*http.Response, error) {
@@ -431,8 +433,14 @@ func outgoing(variant string, ctx context.Context) (string, string) {
 		// a gateway that copied the headers of ITS inbound request onto the outbound one: the traced client states the
 		// current trace and span all the same
 		// (only when the current request is traced: an untraced hop leaves the request alone)
-		if ctx.Value(middleware.TraceIDKey) != nil {
-			req.Header.Set(httpmw.TraceIDHeader, "stale-trace")
+		if tid, ok := ctx.Value(middleware.TraceIDKey).(string); ok {
+			// (every other time the copied trace id is the current one — same trace, earlier hop — and only the span is stale)
+			staleCalls++
+			if staleCalls%2 == 0 {
+				req.Header.Set(httpmw.TraceIDHeader, tid)
+			} else {
+				req.Header.Set(httpmw.TraceIDHeader, "stale-trace")
+			}
 			req.Header.Set(httpmw.ParentSpanIDHeader, "stale-span")
 		}
 		_, _ = httpmw.WrapDoer(d).Do(req)
